@@ -415,11 +415,16 @@ def _prologue_projection(text):
 def check_C04(ctx, replay=None):
     def differs(c):
         return _prologue_projection(c.get("model", "")) != _prologue_projection(c["go"])
+    ctx.ensure_theories()
+    gen, log = ctx.regenerate()
+    if gen is None:
+        ctx.regen_failed = "regeneration failed: " + log[-2000:]
     check_core_policy(ctx, "C04", "C04.v",
-                      ["C04_foreign_arch_default", "C04_x32_enosys", "C04_independent_of_rules", "C04_prologue_both_encodings", "C04_nonvacuous"],
+                      ["C04_foreign_arch_default", "C04_x32_enosys", "C04_independent_of_rules", "C04_prologue_both_encodings",
+                       "C04_source_layout_is_the_model", "C04_source_x32_guard_is_the_model", "C04_source_return_value", "C04_nonvacuous"],
                       ["names", "names_long", "names_long", "names_long", "cond", "mixed", "mixed_long", "condlong", "degenerate", "whole_table"],
                       "policies of every kind sized so that the architecture jump distance straddles 255/256 (name lists of 245..260 and longer, conditional entries), all four tables; compared with the extracted model on the prologue, the instruction the architecture jump lands on and the x32 guard; every accepted program run ONLY on events of a foreign architecture (all audit ids of the package, bit flips of the native id, random words) and, natively, numbers with the x32 bit (0x40000000, |n, 0xFFFFFFFF, ...) or just below it, against the extracted decide; non-trivial = accepted policy with events evaluated",
-                      replay=replay, npol=(250, 4000), nev=(40, 80), foreign_share=0.6, x32_share=0.4, diff_filter=differs)
+                      replay=replay, npol=(250, 4000), nev=(40, 80), foreign_share=0.6, x32_share=0.4, diff_filter=differs, gen=gen)
 
 
 # ------------------------------------------------------------------------------------------------ C05
